@@ -166,6 +166,7 @@ class LazyValue:
     def __eq__(self, other):
         return (
             isinstance(other, type(self))
+            and type(self.value) is type(other.value)  # 1, 1.0 and True are different arguments
             and self.value == other.value
             and self.lexeme == other.lexeme
         )
